@@ -2,7 +2,7 @@ ENTRY = dict(
     runner="C25", pkg="./cmd/c25", corr=["Corr.C25Corr"], n=dict(quick=1, thorough=1), runner_timeout=2400,
     rule="every (version, suite) that the crypto/tls server of the toolchain negotiates with uTLS, taken from the real suite "
          "table (TLS 1.0/1.1: 11 suites each, TLS 1.2: 22, TLS 1.3: 3): a uTLS client (spec offering exactly that pair) "
-         "handshakes over loopback TCP; 2 sessions per pair (thorough 6), each three rounds of 3-6 client writes (sizes from "
+         "handshakes over loopback TCP; 1 session per pair (thorough 6), each two (thorough three) rounds of 2-4 (3-5) client writes (sizes from "
          "{0,1,2,15,16,17,1186..1188,16383..16385,32768} or random up to 2^15) read back by the server with random buffer "
          "sizes, 2-4 server writes read by UConn.Read with random buffer sizes, and in TLS 1.3 a KeyUpdate (random "
          "update_requested) between rounds; Go-side oracle: bytes equal, no error. One case per session: type, version, length "
